@@ -1,5 +1,310 @@
-(* Proofs/Errors.v — lemmas about Model/Errors.v (property C13). *)
+(* Proofs/Errors.v — lemmas about Model/Errors.v (property C13), part 1: the algebra of the
+   error wrappers (paths, errors.Is / errors.As through any stack of wrappers). *)
 From Eino Require Import Base.Util Model.Errors.
+
+(* ------------------------------------------------------------------ vocabulary *)
+
+(* the node path a caller reads off the error: errors.As for the wrapper, its nodePath *)
+Definition np_of (e : err) : list string :=
+  match as_internal e with Some (_, _, np, _) => np | None => [] end.
+Definition sp_of (e : err) : list action :=
+  match as_internal e with Some (_, sp, _, _) => sp | None => [] end.
+
+Definition is_interrupt_error := is_interrupt_error_gen true.
+
+(* everything the run machinery may put around a node's error *)
+Inductive wrapper : Type :=
+| WNode (k : string)         (* wrapGraphNodeError *)
+| WStream (a : action)       (* wrapStreamWrapperError *)
+| WConcat (a : action)       (* newStreamWrapperError(action, "concat ... %w" ("failed to read ... %w" e)) *)
+| WGraphRun                  (* newGraphRunError *)
+| WWrapf.                    (* fmt.Errorf("...%w", e), e.g. "failed to invoke tool call %s: %w" *)
+
+Definition apply_w (w : wrapper) (e : err) : err :=
+  match w with
+  | WNode k => wrap_node k e
+  | WStream a => wrap_stream a e
+  | WConcat a => concat_fail a e
+  | WGraphRun => new_graph_run_error e
+  | WWrapf => Wrapf e
+  end.
+Definition apply_ws (ws : list wrapper) (e : err) : err := fold_right apply_w e ws.
+
+Definition keys_of (ws : list wrapper) : list string :=
+  flat_map (fun w => match w with WNode k => [k] | _ => [] end) ws.
+
+Definition wrap_path (p : list string) (e : err) : err := fold_right wrap_node e p.
+
+(* values errors.Is / errors.As look for: sentinels, typed errors, recovered panics, interrupts —
+   not the framework's own wrappers *)
+Definition transparent (e : err) : bool :=
+  match e with Internal _ _ _ _ | Wrapf _ => true | _ => false end.
+
+(* ------------------------------------------------------------------ chains *)
+
+Lemma chain_unfold : forall e,
+  chain e = e :: match unwrap e with Some e' => chain e' | None => [] end.
+Proof. destruct e; reflexivity. Qed.
+
+Lemma chain_v0_unfold : forall e,
+  chain_v0 e = e :: match unwrap_v0 e with Some e' => chain_v0 e' | None => [] end.
+Proof. destruct e; reflexivity. Qed.
 
 Lemma chain_head : forall b e, exists l, chain_gen b e = e :: l.
 Proof. intros b e. destruct e; simpl; eauto. Qed.
+
+Lemma list_eqb_refl : forall A (eqb : A -> A -> bool), (forall a, eqb a a = true) -> forall l, list_eqb eqb l l = true.
+Proof. intros A eqb H l. induction l; simpl; auto. rewrite H, IHl. reflexivity. Qed.
+
+Lemma action_eqb_refl : forall a, action_eqb a a = true.
+Proof. intros a. unfold action_eqb. apply N.eqb_refl. Qed.
+
+Lemma err_eqb_refl : forall e, err_eqb e e = true.
+Proof.
+  induction e; simpl; auto using N.eqb_refl.
+  - rewrite !N.eqb_refl. reflexivity.
+  - rewrite !N.eqb_refl, IHe. reflexivity.
+  - rewrite IHe, (list_eqb_refl _ _ action_eqb_refl), (list_eqb_refl _ _ String.eqb_refl).
+    destruct t; reflexivity.
+Qed.
+
+Lemma existsb_In_refl : forall t l, In t l -> existsb (err_eqb t) l = true.
+Proof.
+  intros t l H. apply existsb_exists. exists t. split; auto. apply err_eqb_refl.
+Qed.
+
+(* one wrapper changes the chain by a prefix of framework wrappers, possibly rewriting the path
+   fields of a leading wrapper: every predicate / selector that ignores framework wrappers sees
+   the same thing before and after *)
+Section Ignoring.
+  Variable q : err -> bool.
+  Hypothesis q_transparent : forall e, transparent e = true -> q e = false.
+
+  Lemma q_internal : forall t sp np o, q (Internal t sp np o) = false.
+  Proof. intros. apply q_transparent. reflexivity. Qed.
+  Lemma q_wrapf : forall e, q (Wrapf e) = false.
+  Proof. intros. apply q_transparent. reflexivity. Qed.
+
+  Lemma existsb_wrap_node : forall k e, existsb q (chain (wrap_node k e)) = existsb q (chain e).
+  Proof.
+    intros k e. unfold wrap_node, wrap_node_gen.
+    destruct (is_interrupt_error_gen true e); [reflexivity|].
+    destruct e; try (destruct (as_internal_gen true _) as [[[[t' sp'] np'] o']|];
+      cbn [chain chain_gen existsb]; rewrite q_internal; reflexivity).
+    cbn [chain chain_gen existsb]. rewrite !q_internal. reflexivity.
+  Qed.
+
+  Lemma existsb_wrap_stream : forall a e, existsb q (chain (wrap_stream a e)) = existsb q (chain e).
+  Proof.
+    intros a e. unfold wrap_stream, wrap_stream_gen.
+    destruct (is_interrupt_error_gen true e); [reflexivity|].
+    destruct e; try (destruct (as_internal_gen true _) as [[[[t' sp'] np'] o']|];
+      cbn [chain chain_gen existsb]; rewrite q_internal; reflexivity).
+    cbn [chain chain_gen existsb]. rewrite !q_internal. reflexivity.
+  Qed.
+
+  Lemma existsb_apply_w : forall w e, existsb q (chain (apply_w w e)) = existsb q (chain e).
+  Proof.
+    intros [k|a|a| |] e; cbn [apply_w].
+    - apply existsb_wrap_node.
+    - apply existsb_wrap_stream.
+    - unfold concat_fail, new_stream_wrapper_error. cbn [chain chain_gen existsb].
+      rewrite q_internal, !q_wrapf. reflexivity.
+    - unfold new_graph_run_error. cbn [chain chain_gen existsb]. rewrite q_internal. reflexivity.
+    - cbn [chain chain_gen existsb]. rewrite q_wrapf. reflexivity.
+  Qed.
+
+  Lemma existsb_apply_ws : forall ws e, existsb q (chain (apply_ws ws e)) = existsb q (chain e).
+  Proof.
+    induction ws as [|w ws IH]; intros e; cbn [apply_ws fold_right]; [reflexivity|].
+    fold (apply_ws ws e). rewrite existsb_apply_w. apply IH.
+  Qed.
+End Ignoring.
+
+Section Selecting.
+  Variable B : Type.
+  Variable f : err -> option B.
+  Hypothesis f_transparent : forall e, transparent e = true -> f e = None.
+
+  Lemma f_internal : forall t sp np o, f (Internal t sp np o) = None.
+  Proof. intros. apply f_transparent. reflexivity. Qed.
+  Lemma f_wrapf : forall e, f (Wrapf e) = None.
+  Proof. intros. apply f_transparent. reflexivity. Qed.
+
+  Lemma first_wrap_node : forall k e, first_some f (chain (wrap_node k e)) = first_some f (chain e).
+  Proof.
+    intros k e. unfold wrap_node, wrap_node_gen.
+    destruct (is_interrupt_error_gen true e); [reflexivity|].
+    destruct e; try (destruct (as_internal_gen true _) as [[[[t' sp'] np'] o']|];
+      cbn [chain chain_gen first_some]; rewrite f_internal; reflexivity).
+    cbn [chain chain_gen first_some]. rewrite !f_internal. reflexivity.
+  Qed.
+
+  Lemma first_wrap_stream : forall a e, first_some f (chain (wrap_stream a e)) = first_some f (chain e).
+  Proof.
+    intros a e. unfold wrap_stream, wrap_stream_gen.
+    destruct (is_interrupt_error_gen true e); [reflexivity|].
+    destruct e; try (destruct (as_internal_gen true _) as [[[[t' sp'] np'] o']|];
+      cbn [chain chain_gen first_some]; rewrite f_internal; reflexivity).
+    cbn [chain chain_gen first_some]. rewrite !f_internal. reflexivity.
+  Qed.
+
+  Lemma first_apply_w : forall w e, first_some f (chain (apply_w w e)) = first_some f (chain e).
+  Proof.
+    intros [k|a|a| |] e; cbn [apply_w].
+    - apply first_wrap_node.
+    - apply first_wrap_stream.
+    - unfold concat_fail, new_stream_wrapper_error. cbn [chain chain_gen first_some].
+      rewrite f_internal, !f_wrapf. reflexivity.
+    - unfold new_graph_run_error. cbn [chain chain_gen first_some]. rewrite f_internal. reflexivity.
+    - cbn [chain chain_gen first_some]. rewrite f_wrapf. reflexivity.
+  Qed.
+
+  Lemma first_apply_ws : forall ws e, first_some f (chain (apply_ws ws e)) = first_some f (chain e).
+  Proof.
+    induction ws as [|w ws IH]; intros e; cbn [apply_ws fold_right]; [reflexivity|].
+    fold (apply_ws ws e). rewrite first_apply_w. apply IH.
+  Qed.
+End Selecting.
+
+(* ------------------------------------------------------------------ errors.Is / errors.As through wrappers *)
+
+(* a target that is not one of the framework's wrappers *)
+Definition leaf_target (t : err) : Prop := transparent t = false.
+
+Lemma err_eqb_leaf_transparent : forall t, leaf_target t -> forall e, transparent e = true -> err_eqb t e = false.
+Proof.
+  intros t Ht e He. destruct e; try discriminate; destruct t; try reflexivity; discriminate.
+Qed.
+
+Lemma is_through_wrappers : forall t, leaf_target t -> forall ws e, is_ t (apply_ws ws e) = is_ t e.
+Proof.
+  intros t Ht ws e. unfold is_, is_gen. fold chain.
+  apply existsb_apply_ws. apply err_eqb_leaf_transparent. exact Ht.
+Qed.
+
+Lemma custom_code_transparent : forall ty e, transparent e = true -> custom_code ty e = None.
+Proof. intros ty e H. destruct e; try discriminate; reflexivity. Qed.
+Lemma panic_info_transparent : forall e, transparent e = true -> panic_info e = None.
+Proof. intros e H. destruct e; try discriminate; reflexivity. Qed.
+
+Lemma as_custom_through_wrappers : forall ty ws e, as_custom ty (apply_ws ws e) = as_custom ty e.
+Proof.
+  intros. unfold as_custom, as_custom_gen. fold chain. apply first_apply_ws. apply custom_code_transparent.
+Qed.
+
+Lemma as_panic_through_wrappers : forall ws e, as_panic (apply_ws ws e) = as_panic e.
+Proof.
+  intros. unfold as_panic, as_panic_gen. fold chain. apply first_apply_ws. apply panic_info_transparent.
+Qed.
+
+Lemma interrupt_e_transparent : forall e, transparent e = true -> is_interrupt_e e = false.
+Proof. intros e H. destruct e; try discriminate; reflexivity. Qed.
+Lemma subinterrupt_e_transparent : forall e, transparent e = true -> is_subinterrupt_e e = false.
+Proof. intros e H. destruct e; try discriminate; reflexivity. Qed.
+
+Lemma interrupt_through_wrappers : forall ws e, is_interrupt_error (apply_ws ws e) = is_interrupt_error e.
+Proof.
+  intros. unfold is_interrupt_error, is_interrupt_error_gen, extract_interrupt_gen, is_sub_interrupt_gen, is_gen.
+  fold chain.
+  rewrite (existsb_apply_ws _ interrupt_e_transparent), (existsb_apply_ws _ subinterrupt_e_transparent).
+  rewrite (existsb_apply_ws (err_eqb (Leaf id_rerun))); [reflexivity|].
+  apply err_eqb_leaf_transparent. reflexivity.
+Qed.
+
+Lemma interrupt_task_through_wrappers : forall ws e, is_interrupt_task (apply_ws ws e) = is_interrupt_task e.
+Proof.
+  intros. unfold is_interrupt_task, is_, is_gen. fold chain.
+  rewrite (existsb_apply_ws _ subinterrupt_e_transparent).
+  rewrite (existsb_apply_ws (err_eqb (Leaf id_rerun))); [reflexivity|].
+  apply err_eqb_leaf_transparent. reflexivity.
+Qed.
+
+(* the node's own error value stays on the chain (errors.Is(runErr, e) by identity), unless it is
+   itself a framework wrapper (then it is that same wrapper, with a longer path) *)
+Lemma In_chain_apply_w : forall y, transparent y = false \/ (exists x, y = Wrapf x) ->
+  forall w e, In y (chain e) -> In y (chain (apply_w w e)).
+Proof.
+  intros y Hy w e Hin.
+  assert (Hni : forall t sp np o, y <> Internal t sp np o).
+  { intros t sp np o ->. destruct Hy as [H|[x H]]; discriminate. }
+  destruct w as [k|a|a| |]; cbn [apply_w].
+  - unfold wrap_node, wrap_node_gen. destruct (is_interrupt_error_gen true e); [exact Hin|].
+    destruct e; try (destruct (as_internal_gen true _) as [[[[t' sp'] np'] o']|];
+      cbn [chain chain_gen]; right; exact Hin).
+    cbn [chain chain_gen] in *. destruct Hin as [H|H]; [exfalso; eapply Hni; eauto|right; exact H].
+  - unfold wrap_stream, wrap_stream_gen. destruct (is_interrupt_error_gen true e); [exact Hin|].
+    destruct e; try (destruct (as_internal_gen true _) as [[[[t' sp'] np'] o']|];
+      cbn [chain chain_gen]; right; exact Hin).
+    cbn [chain chain_gen] in *. destruct Hin as [H|H]; [exfalso; eapply Hni; eauto|right; exact H].
+  - unfold concat_fail, new_stream_wrapper_error. cbn [chain chain_gen]. right. right. right. exact Hin.
+  - unfold new_graph_run_error. cbn [chain chain_gen]. right. exact Hin.
+  - cbn [chain chain_gen]. right. exact Hin.
+Qed.
+
+Lemma own_error_on_chain_lemma : forall e, transparent e = false \/ (exists x, e = Wrapf x) ->
+  forall ws, In e (chain (apply_ws ws e)).
+Proof.
+  intros e He ws. induction ws as [|w ws IH]; cbn [apply_ws fold_right].
+  - destruct (chain_head true e) as [l Hl]. unfold chain. rewrite Hl. left. reflexivity.
+  - apply In_chain_apply_w; assumption.
+Qed.
+
+(* ------------------------------------------------------------------ paths *)
+
+Lemma as_internal_Internal : forall t sp np o, as_internal (Internal t sp np o) = Some (t, sp, np, o).
+Proof. reflexivity. Qed.
+
+Lemma wrap_node_path : forall k e, is_interrupt_error e = false -> np_of (wrap_node k e) = k :: np_of e.
+Proof.
+  intros k e H. unfold wrap_node, wrap_node_gen. unfold is_interrupt_error in H. rewrite H.
+  destruct e; try reflexivity;
+    try (unfold np_of at 2; fold as_internal;
+         destruct (as_internal _) as [[[[t' sp'] np'] o']|] eqn:E; reflexivity).
+Qed.
+
+Lemma wrap_node_sp : forall k e, sp_of (wrap_node k e) = sp_of e.
+Proof.
+  intros k e. unfold wrap_node, wrap_node_gen.
+  destruct (is_interrupt_error_gen true e); [reflexivity|].
+  destruct e; try reflexivity;
+    try (unfold sp_of at 2; fold as_internal;
+         destruct (as_internal _) as [[[[t' sp'] np'] o']|] eqn:E; reflexivity).
+Qed.
+
+Lemma wrap_stream_path : forall a e, np_of (wrap_stream a e) = np_of e.
+Proof.
+  intros a e. unfold wrap_stream, wrap_stream_gen.
+  destruct (is_interrupt_error_gen true e); [reflexivity|].
+  destruct e; try reflexivity;
+    try (unfold np_of at 2; fold as_internal;
+         destruct (as_internal _) as [[[[t' sp'] np'] o']|] eqn:E; reflexivity).
+Qed.
+
+Lemma wrap_node_interrupt : forall k e, is_interrupt_error (wrap_node k e) = is_interrupt_error e.
+Proof. intros k e. exact (interrupt_through_wrappers [WNode k] e). Qed.
+
+Lemma wrap_path_interrupt : forall p e, is_interrupt_error (wrap_path p e) = is_interrupt_error e.
+Proof.
+  induction p as [|k p IH]; intros e; cbn [wrap_path fold_right]; [reflexivity|].
+  fold (wrap_path p e). rewrite wrap_node_interrupt. apply IH.
+Qed.
+
+Lemma wrap_path_np : forall p e, is_interrupt_error e = false -> np_of (wrap_path p e) = p ++ np_of e.
+Proof.
+  induction p as [|k p IH]; intros e H; cbn [wrap_path fold_right]; [reflexivity|].
+  fold (wrap_path p e). rewrite wrap_node_path by (rewrite wrap_path_interrupt; exact H).
+  rewrite IH by exact H. reflexivity.
+Qed.
+
+Lemma wrap_path_is_apply_ws : forall p e, wrap_path p e = apply_ws (map WNode p) e.
+Proof. induction p as [|k p IH]; intros e; cbn; [reflexivity|]. f_equal. apply IH. Qed.
+
+(* interrupts are handed on as they are *)
+Lemma interrupt_not_wrapped_lemma : forall e, is_interrupt_error e = true ->
+  (forall k, wrap_node k e = e) /\ (forall a, wrap_stream a e = e).
+Proof.
+  intros e H. unfold is_interrupt_error in H. split; intros x.
+  - unfold wrap_node, wrap_node_gen. rewrite H. reflexivity.
+  - unfold wrap_stream, wrap_stream_gen. rewrite H. reflexivity.
+Qed.
